@@ -53,12 +53,27 @@ def run(ctx):
             if se and isinstance(se[0], tuple) and se[0][0] == 'field' and rq(getname)(se[0][1]):
                 armvals |= set(se[2])
         rep.check(r1, bool(sp) and not off and not (armvals & banned), f.id + ':' + getname, '%s values with an arm: %s; reply reachable only through %s; reply-typed values %s have no arm' % (what, sorted(armvals), sorted(allowed), sorted(banned)), f.loc(sp[0]) if sp else '')
-    tcp, table, heads, label = tcp_arms(F)
-    for v, nm in [(SYN | ACK, 'SYN|ACK'), (RST, 'RST'), (RST | ACK, 'RST|ACK'), (SYN | ACK | ECE, 'SYN|ACK|ECE')]:
-        rep.check(r1, label[table[v]] == 'drop', 'tcp:flags=%s' % nm, 'arm selected: %s' % label[table[v]], tcp.loc(table[v]))
-    # every flag value containing RST, or SYN together with ACK but not PSH, is dropped
-    bad = [v for v in range(512) if ((v & RST) and (v & (PSH | ACK)) != (PSH | ACK) or ((v & SYN) and (v & ACK) and not (v & PSH))) and label[table[v]] != 'drop']
-    rep.check(r1, not bad, 'tcp:reply-typed-flag-sets', 'RST-bearing or SYN+ACK flag sets (without PSH|ACK) that are answered: %s' % [hex(x) for x in bad[:8]])
+    try:
+        forked = None
+        tcp, table, heads, label = tcp_arms(F)
+    except FlagTableFork as e:
+        # the guards mix the flags with other request data (payload length ...): the arm is a relation of the flags.  A
+        # reply-typed flag set that CAN select an answering arm is a violation whatever that other data is; if none can,
+        # the relation is beyond this rule and the check gives no verdict, as before.
+        forked = e
+    if forked is not None:
+        bad = sorted(v for v, hs in forked.rows.items()
+                     if ((v & RST) and (v & (PSH | ACK)) != (PSH | ACK) or ((v & SYN) and (v & ACK) and not (v & PSH))) and any(classify_arm(forked.fn, h) != 'drop' for h in hs))
+        if not bad:
+            raise forked
+        rep.check(r1, False, 'tcp:reply-typed-flag-sets', 'the arm selected depends on request data other than the flags; RST-bearing or SYN+ACK flag sets (without PSH|ACK) that can select an answering arm: %s (%d values)' % ([hex(x) for x in bad[:8]], len(bad)),
+                  forked.fn.loc(forked.rows[bad[0]][0]))
+    else:
+        for v, nm in [(SYN | ACK, 'SYN|ACK'), (RST, 'RST'), (RST | ACK, 'RST|ACK'), (SYN | ACK | ECE, 'SYN|ACK|ECE')]:
+            rep.check(r1, label[table[v]] == 'drop', 'tcp:flags=%s' % nm, 'arm selected: %s' % label[table[v]], tcp.loc(table[v]))
+        # every flag value containing RST, or SYN together with ACK but not PSH, is dropped
+        bad = [v for v in range(512) if ((v & RST) and (v & (PSH | ACK)) != (PSH | ACK) or ((v & SYN) and (v & ACK) and not (v & PSH))) and label[table[v]] != 'drop']
+        rep.check(r1, not bad, 'tcp:reply-typed-flag-sets', 'RST-bearing or SYN+ACK flag sets (without PSH|ACK) that are answered: %s' % [hex(x) for x in bad[:8]])
 
     # R2 STUN
     r2 = rep.rule('C12-R2', 'stun::repl answers only class==request(0) and method==binding(1); its own answer carries class success(2)', floor=3)
@@ -141,7 +156,8 @@ def run(ctx):
     r4 = rep.rule('C12-R4', 'DNSPacket::repl answers only messages with QR == 0; its own answer sets QR = 1', floor=2)
     dn = F.fn('<proto::dns::DNSPacket as proto::dissector::MPacket>::repl')
     rep.saw(dn)
-    sp = some_points(dn)
+    # a reply is materialised where a Some is built - or where a callee's Option is returned as it is (`return x.repl(..)`)
+    sp = sorted(set(some_points(dn) + forwarded_reply_points(dn)))
 
     def is_qr(d):
         d = peel(d)
